@@ -10,7 +10,7 @@ def main(tier):
         if prop != "c05":
             continue
         r.violation(key, f"{f['clause']} [seed={f['seed']} passes={f['path']}]: {f['detail']}",
-                    {"engine": "E1-pass", "seed": f["seed"], "history": f["path"], "oracle": f["clause"], "detail": f["detail"]})
+                    {"engine": "E1-pass", "seed": f["seed"], "seed_hex": f.get("seed_hex"), "history": f["path"], "oracle": f["clause"], "detail": f["detail"]})
     r.sample({"seed": [["If", "add", "id", "x"], ["Sub", "v0", "w1"]], "outputs": ["v1"], "passes": ["Inline", "CSE"]})
     r.sample({"passes": [n for n, _ in _passes.PASSES]})
     r.coverage.update({
@@ -29,6 +29,8 @@ def replay(obj):
     import onnx
     from mc import gen_graphs as gg
 
+    if obj.get("seed_hex"):
+        return _passes.replay_history(obj["seed_hex"], obj["history"], "c05", obj["oracle"])
     seed = obj["seed"]
     forms = tuple(tuple(f) for f in seed[0]) if seed and isinstance(seed[0], list) else None
     if forms is None:
